@@ -2246,3 +2246,63 @@ def _op_add_assign(I, info, args):
     p = args[0]
     I.store(p.cell, p.path, _op_add(I, info, [load(p), args[1]]))
     return UNIT
+
+
+# ---------------------------------------------------------------- swc_common::Span helpers
+
+def _span(v):
+    v = deref(v)
+    if not (isinstance(v, Adt) and v.ty == 'Span'):
+        raise Unsupported('expected Span, got %r' % (v,))
+    return v
+
+
+@path(('Span', 'shrink_to_lo'))
+def _span_shrink_lo(I, info, args):
+    s = _span(args[0])
+    return Adt('Span', None, [deep_copy(s.fields[0]), deep_copy(s.fields[0])])
+
+
+@path(('Span', 'shrink_to_hi'))
+def _span_shrink_hi(I, info, args):
+    s = _span(args[0])
+    return Adt('Span', None, [deep_copy(s.fields[1]), deep_copy(s.fields[1])])
+
+
+@path(('Span', 'lo'))
+def _span_lo(I, info, args):
+    return deep_copy(_span(args[0]).fields[0])
+
+
+@path(('Span', 'hi'))
+def _span_hi(I, info, args):
+    return deep_copy(_span(args[0]).fields[1])
+
+
+@path(('Span', 'with_lo'))
+def _span_with_lo(I, info, args):
+    s = _span(args[0])
+    return Adt('Span', None, [deep_copy(deref(args[1])), deep_copy(s.fields[1])])
+
+
+@path(('Span', 'with_hi'))
+def _span_with_hi(I, info, args):
+    s = _span(args[0])
+    return Adt('Span', None, [deep_copy(s.fields[0]), deep_copy(deref(args[1]))])
+
+
+@path(('Span', 'to'), ('Span', 'between'), ('Span', 'until'))
+def _span_to(I, info, args):
+    a, b = _span(args[0]), _span(args[1])
+    return Adt('Span', None, [deep_copy(a.fields[0]), deep_copy(b.fields[1])])
+
+
+@path(('Span', 'new'))
+def _span_new(I, info, args):
+    return Adt('Span', None, [deep_copy(deref(args[0])), deep_copy(deref(args[1]))])
+
+
+@path(('Span', 'is_dummy'))
+def _span_is_dummy(I, info, args):
+    s = _span(args[0])
+    return sym_eq(I, s, dummy_sp())
